@@ -413,7 +413,9 @@ fn gen_leader(r: &mut Rng) -> String {
     let commit = if last == 0 { 0 } else { r.below(last + 1) };
     let nops = 2 + r.below(12);
     let mut ops: Vec<String> = vec![];
-    let mut clock = 0u64;
+    // now_ms() == 0 only in the first millisecond of a process; `last_heartbeat_send_ts == 0` means "unset"
+    let mut clock = 1 + r.below(2000);
+    ops.push(format!("c{clock}"));
     let mut round = 0u64;
     let peers: Vec<u64> = (2..=n).chain(lrn.iter().copied()).collect();
     for _ in 0..nops {
